@@ -9,7 +9,7 @@ from pyvc.tasks import Bounded
 from . import b_docs as G
 from .b_merge import load, Runner, build, to_plain, n_cases
 
-WATCHDOG_S = 8
+WATCHDOG_S = 20        # generous: a verdict must not flip when all cores are busy (a small build takes well under a second)
 
 
 def build_in_subprocess(repo, texts, timeout=WATCHDOG_S, extra=''):
